@@ -52,6 +52,7 @@ def run(ch, config, res):
     world = World(ch, cfg, client_impl=config.get("client", "real"), read_size=rsz)
     srv = world.server
     srv.order_variation = True
+    srv.cap_variation = True
     srv.text_lit_variation = True
     # in a third of the sessions status replies take every RFC 5804 shape (codes, multi-line literal texts with
     # look-alike lines): their content is C09's business, a reply left half-read is a desynchronisation = ours
